@@ -212,6 +212,9 @@ pub fn canon_value(v: &IppValue, ident: bool) -> CValue {
             }
         }
         IppValue::Collection(map) => CValue::Coll(map.iter().map(|(k, v)| (k.as_bytes().to_vec(), canon_value(v, ident))).collect()),
+        // a value kind added to the library later: kept distinguishable by its Debug form
+        #[allow(unreachable_patterns)]
+        other => CValue::Other(0xff, format!("{other:?}").into_bytes()),
     }
 }
 
